@@ -1,39 +1,45 @@
 """Configuration of ./check for property C20 (loaded by tools/props.py)."""
 
-PROP = {'engine': 'pn',
- 'lean_props': ['MuscleModel.Props.C20'],
- 'harnesses': [{'name': 'pn', 'sources': ['harness/pn.cpp']}],
- 'trusted_base': ['hand-written Lean model of util/PulseNode.cpp (lean/MuscleModel/Pulse/Tree.lean): ReschedulePulseChild, InvalidatePulseTime, '
-                  'Put/RemovePulseChild, ClearPulseChildren, destructor, GetPulseTimeAux, PulseAux, PulseNodeManager::Call*Aux',
-                  'MUSCLE_TIME_NEVER is regenerated from /repo headers on every run (tools/extract_consts.cpp)',
-                  'node behaviour is a script (requested times + re-entrant actions per callback); the simulated clock is an argument of each sweep'],
- 'assumptions': ['sweep theorems are about runs the model completes (explicit fuel; out of fuel = no statement)',
-                 'GetPulseTimeAux-sweep theorems (inv_preserved_gpt_sweep, gpt_sweep_settles, wakeup_never_late, due_nodes_reachable) assume the '
-                 'discipline verdict of managerGptC: no GetPulseTime callback invalidates/detaches/attaches a node whose own GetPulseTimeAux is in '
-                 'progress (any other node may be invalidated, attached, detached); public operations and the pulse sweep need no discipline',
+PROP = {'assumptions': ['sweep theorems are about runs the model completes (explicit fuel; out of fuel = no statement)',
+                 'GetPulseTimeAux-sweep theorems (inv_preserved_gpt_sweep, gpt_sweep_settles, wakeup_never_late, due_nodes_reachable) assume the discipline '
+                 'verdict of managerGptC: no GetPulseTime callback invalidates/detaches/attaches a node whose own GetPulseTimeAux is in progress (any other '
+                 'node may be invalidated, attached, detached); public operations and the pulse sweep need no discipline',
                  'fires_iff_due (completeness) additionally assumes that the Pulse callbacks of that sweep only change requests (PQuiet) and t < '
-                 'MUSCLE_TIME_NEVER; reasked / all_asked_after_sweep assume the sweep discipline and the flagging invariant V (proved for public '
-                 'operations and the pulse sweep); each discipline has a necessity witness (examples at the end of Props/C20.lean)',
-                 'still partial: wakeup_is_min exactness (>=; false when a callback supersedes an answer within one sweep; needs acyclicity for the '
-                 'witness node), termination (only fuel-independence of results; needs acyclicity + a measure)',
+                 'MUSCLE_TIME_NEVER; reasked / all_asked_after_sweep assume the sweep discipline and the flagging invariant V (proved for public operations '
+                 'and the pulse sweep); each discipline has a necessity witness (examples at the end of Props/C20.lean)',
+                 'still partial: wakeup_is_min exactness (>=; false when a callback supersedes an answer within one sweep; needs acyclicity for the witness '
+                 'node), termination (only fuel-independence of results; needs acyclicity + a measure)',
                  'now < MUSCLE_TIME_NEVER for "fires iff due"; no attachment that closes a cycle (the harness refuses it)'],
+ 'engine': 'pn',
+ 'harnesses': [{'name': 'pn', 'sources': ['harness/pn.cpp']}],
+ 'lean_props': ['MuscleModel.Props.C20'],
  'rule': 'random histories over a pool of 16 scripted PulseNodes (attach/detach/destroy/invalidate/change request, scripts of re-entrant actions for '
          'GetPulseTime and Pulse callbacks, then for each event-loop cycle: CallGetPulseTimeAux on every root, a simulated wait, CallPulseAux on every root); '
          'returned minimum, callback log (node, now, scheduled/previous time, answer) in call order, parent pointers and scheduled times must agree between '
          'the real PulseNode class and the Lean model; the direct oracle (brute-force min of requests; fired set = due set, once, never early, asked-again '
-         'set) runs on every sweep; distinct = distinct case bodies'}
+         'set) runs on every sweep; distinct = distinct case bodies',
+ 'trusted_base': ['hand-written Lean model of util/PulseNode.cpp (lean/MuscleModel/Pulse/Tree.lean): ReschedulePulseChild, InvalidatePulseTime, '
+                  'Put/RemovePulseChild, ClearPulseChildren, destructor, GetPulseTimeAux, PulseAux, PulseNodeManager::Call*Aux',
+                  'MUSCLE_TIME_NEVER is regenerated from /repo headers on every run (tools/extract_consts.cpp)',
+                  'node behaviour is a script (requested times + re-entrant actions per callback); the simulated clock is an argument of each sweep']}
 
 TEXT = {'design_ref': 'DESIGN.md section 4, C20',
+ 'note': 'Sweep theorems are partial-correctness statements over fuel-bounded runs, plus termination of both sweeps with request-only scripts under explicit '
+         'height/list bounds (finite support of reachable states is a hypothesis, not proved); theorems named _partial state what is missing.  Finding '
+         'C20-lost-invalidate (invalidate of a node whose GetPulseTimeAux is in progress was lost) is repaired in /repo; the model mirrors the repaired code '
+         '(second pass, aggregate 0 for a node that is invalid even then), theorems lost_invalidate_reasked/_bounded/_live state it, regression input '
+         'corpus/C20/pn-regress-inprogress-invalidate.ops.  Trusted: Lean kernel, the statement file, the correspondence harness (sampling), MUSCLE_TIME_NEVER '
+         'regenerated from the headers.',
  'technique': 'Lean 4 theorems over a hand-written executable model of the PulseNode scheduler (three child lists per node, aggregate times, both sweeps, '
               'scripted re-entrant callbacks) + differential correspondence of model and real code on random histories under a simulated clock + brute-force '
               'direct oracle',
  'text': 'Proved in Lean over the model of util/PulseNode.cpp: see lean/MuscleModel/Props/C20.lean for the exact statements (structural invariant preserved by '
          'the public operations, sorted insert with the tail shortcut, callbacks never early and with the time asked for, wake-up time is a lower bound / the '
-         'minimum of the requested times of a settled tree, fired set = due set for a settled tree).  The model is tied to the C++ code by running both on the '
-         'same random histories (attach/detach/destroy/invalidate, scripts with re-entrant actions, gpt/pulse sweeps): returned minimum and the full callback '
-         'log must be identical; a brute-force oracle on the real class checks min-of-requests, fired = due, once, never early, asked again.',
- 'note': 'Sweep theorems are partial-correctness statements over fuel-bounded runs; theorems named _partial state what is missing.  Finding '
-         'C20-lost-invalidate (invalidate of a node whose GetPulseTimeAux is in progress was lost) is repaired in /repo; the model mirrors the repaired code '
-         '(second pass, aggregate 0 for a node that is invalid even then), theorems lost_invalidate_reasked/_bounded/_live state it, regression input '
-         'corpus/C20/pn-regress-inprogress-invalidate.ops.  Trusted: Lean kernel, the statement file, the correspondence harness (sampling), MUSCLE_TIME_NEVER '
-         'regenerated from the headers.'}
+         'minimum of the requested times of a settled tree, fired set = due set for a settled tree).  Added later: the reported wake-up time is EXACTLY the '
+         'minimum (attained, or "never") for every sweep whose GetPulseTime callbacks only answer and change requests (`wakeup_is_min_quiet`; '
+         '`wakeup_is_min_first_sweep` for the first sweep after any history without further hypotheses); the parent relation has finite height in every '
+         'reachable state (`finite_height_reachable`, the guard `isAnc_sound`); both sweeps terminate with fuel B*(N+2) for height bound B and list bound N '
+         '(`pulse_sweep_terminates_quiet`, `gpt_sweep_terminates_quiet`), and the bounds exist under finite support (`sweeps_terminate_finite_support`).  The '
+         'model is tied to the C++ code by running both on the same random histories (attach/detach/destroy/invalidate, scripts with re-entrant actions, '
+         'gpt/pulse sweeps): returned minimum and the full callback log must be identical; a brute-force oracle on the real class checks min-of-requests, '
+         'fired = due, once, never early, asked again.'}
